@@ -531,6 +531,22 @@ impl<T: Eq + Hash> FrequentItemsSketch<T> {
             })?);
         }
 
+        // The counters and the offset never add up to more than the stream weight (a purge
+        // takes its median off every counter and adds it to the offset once); an image that
+        // claims otherwise would overflow when it is queried or rebuilt.
+        let mut accounted = offset_val;
+        for &value in &values {
+            accounted = match accounted.checked_add(value) {
+                Some(sum) if value > 0 => sum,
+                _ => return Err(Error::deserial("corrupted: invalid item weight")),
+            };
+        }
+        if accounted > stream_weight {
+            return Err(Error::deserial(format!(
+                "corrupted: item weights and offset add up to {accounted}, more than the stream weight {stream_weight}"
+            )));
+        }
+
         let items = deserialize_items(cursor, active_items)?;
         if items.len() != active_items {
             return Err(Error::deserial(
